@@ -11,6 +11,13 @@ Line protocol of engine `aggregation` (one case per line, the whole operation se
            `mutex`    toks `g=<input>` (guard) `d<g>` (drop guard) `m=<input>`; remaining guards dropped in order at the end
            `worker`   toks `s<h>=<input>` `g<h>=<input>` `d<g>` `F<h>` `c<h>` `x<h>`; ops on dead handles /
                       guards are skipped; at the end remaining guards, then handles are dropped
+           `gated`    the worker with an inner sink whose `flush` the harness can hold at a gate (a gate only
+                      restricts the schedule: while it is closed the model's worker takes no step); toks
+                      `s<h>=<input>` `c<h>` `x<h>` `A<h>` (start a flush request through a clone of handle h and leave it
+                      in flight; while the gate is closed: observation `f<k>:pending`) `P` (gate closed: every flush in
+                      flight is still pending, observation `P:<pending>/<in flight>`) `G0` (wait for the flushes in
+                      flight, then close the gate; ignored while it is closed) `G1` (open the gate, wait for the flushes in flight, observation
+                      `G:A[..]B[..]` = everything emitted since the last observation, all epochs together)
            `trace`    toks `in=<input>` … `out=<aggregate>` …   (T-trace: totals of a concurrent run)
 
   reply: observations joined by ` | `; an observation is what one flush emitted: aggregates
@@ -244,6 +251,88 @@ def handleWorker (toks : List String) : String :=
   let raw := (innerTee d.w.innerOps).2.2
   join (d.obs ++ [s!"raw={showRaw raw}", s!"exited={if d.w.exited then 1 else 0}"])
 
+/-! ### gated worker: several flush requests in flight -/
+
+structure GDrv where
+  w : WState Input := {}
+  handles : List Bool := [true]
+  obs : List String := []
+  /-- number of inner flushes already reported -/
+  seen : Nat := 0
+  bad : Bool := false
+  closed : Bool := false
+  /-- flush requests started so far -/
+  started : Nat := 0
+  /-- flush requests whose future (and the handle clone it owns) has been dropped after completion -/
+  reaped : Nat := 0
+
+def GDrv.events (d : GDrv) (evs : List (Event Input)) : GDrv :=
+  match wrun d.w evs with
+  | some w => { d with w := w }
+  | none => { d with bad := true }
+
+/-- everything emitted since the last report, the epochs taken together -/
+def GDrv.report (d : GDrv) (pref : String) : GDrv :=
+  let t := innerTee d.w.innerOps
+  let a := (t.1.emitted.drop d.seen).flatten
+  let b := (t.2.1.emitted.drop d.seen).flatten
+  { d with obs := d.obs ++ [s!"{pref}{showTeeObs a b}"], seen := t.1.emitted.length }
+
+/-- wait for every flush in flight: the worker runs until all requests are answered, the futures
+(each owning a handle clone) are dropped, and if no sender is left the worker runs to its exit -/
+def GDrv.sync (d : GDrv) : GDrv :=
+  let w := workerUntilFlushDone d.started (d.w.chan.length + 1) d.w
+  let d := { d with w := w }
+  let d := d.events (List.replicate (d.started - d.reaped) .dropHandle)
+  let d := { d with reaped := d.started }
+  if d.w.handles = 0 then { d with w := workerToExit (d.w.chan.length + 1) d.w } else d
+
+def gtok (d : GDrv) (t : String) : GDrv :=
+  if t == "G0" then (if d.closed then d else { d.sync with closed := true })
+  else if t == "G1" then ({ d with closed := false }).sync.report "G:"
+  else if t == "P" then
+    if d.closed then
+      let n := d.started - d.reaped
+      -- the gate is closed: the worker takes no step, nothing in flight is answered
+      { d with obs := d.obs ++ [s!"P:{n - (d.w.flushDone - d.reaped)}/{n}"] }
+    else d
+  else if t.startsWith "A" then
+    match parseIdx t with
+    | none => { d with bad := true }
+    | some h =>
+      if alive d.handles h then
+        let d := d.events [.clone, .sendFlush]
+        let k := d.started
+        let d := { d with started := d.started + 1 }
+        if d.closed then { d with obs := d.obs ++ [s!"f{k}:{if d.w.flushDone > k then "ready" else "pending"}"] } else d
+      else d
+  else if t.startsWith "c" then
+    match parseIdx t with
+    | none => { d with bad := true }
+    | some h => if alive d.handles h then { d.events [.clone] with handles := d.handles ++ [true] } else d
+  else if t.startsWith "x" then
+    match parseIdx t with
+    | none => { d with bad := true }
+    | some h => if alive d.handles h then { d.events [.dropHandle] with handles := d.handles.set h false } else d
+  else match t.splitOn "=" with
+    | [tag, inp] =>
+      match parseInput inp, (tag.drop 1).toNat? with
+      | some e, some h =>
+        if tag.startsWith "s" then (if alive d.handles h then d.events [.send e] else d)
+        else { d with bad := true }
+      | _, _ => { d with bad := true }
+    | _ => { d with bad := true }
+
+def handleGated (toks : List String) : String :=
+  let d := toks.foldl gtok {}
+  let d := ({ d with closed := false }).sync
+  let d := d.handles.foldl (fun d h => if h then d.events [.dropHandle] else d) d
+  let d := { d with w := workerToExit (d.w.chan.length + 1) d.w }
+  let d := d.report "end:"
+  if d.bad then "bad-op" else
+  let raw := (innerTee d.w.innerOps).2.2
+  join (d.obs ++ [s!"raw={showRaw raw}", s!"exited={if d.w.exited then 1 else 0}"])
+
 /-! ### trace acceptance (T-trace): totals of a concurrent / timed run -/
 
 structure OutAgg where
@@ -286,6 +375,7 @@ def handle (line : String) : String :=
     else if p == "embedded" then handleEmbedded toks
     else if p == "mutex" then handleMutex toks
     else if p == "worker" then handleWorker toks
+    else if p == "gated" then handleGated toks
     else if p == "trace" then handleTrace toks
     else "bad-op"
 
